@@ -6,6 +6,7 @@ import Driver.HH
 import Driver.C15
 import Driver.C12
 import Driver.Shard
+import Driver.Compact
 
 /-- one line in, one line out; the handler may carry state -/
 structure Handler where
@@ -22,6 +23,7 @@ def handlers : List (String × Handler) := [
   ("c15", stateless Driver.C15.handle),
   ("meta", ⟨Driver.MetaD.St, {}, Driver.MetaD.step⟩),
   ("shard", ⟨InfluxVerif.ShardSpec.St, {}, Driver.ShardD.step⟩),
+  ("compact", ⟨Driver.CompactD.St, {}, Driver.CompactD.step⟩),
   ("hh", ⟨InfluxVerif.HH.Q, Driver.HHD.init 1024 100000, Driver.HHD.step⟩)
 ]
 
